@@ -1543,9 +1543,12 @@ class Tensor:
         #
         # Create new shape list
         #
-        # TBD: Create shape
+        # Note: only an authoritative shape is passed on, otherwise the
+        # new tensor estimates its shape itself
         #
-        shape = None
+        shape = copy.deepcopy(self.getShape(authoritative=True))
+        if shape is not None:
+            shape[depth], shape[depth + 1] = shape[depth + 1], shape[depth]
 
         # Only call Fiber.swapRanks if there are actually payloads to swap
         if not all(fiber.isEmpty() for fiber in self.ranks[depth].fibers):
